@@ -339,6 +339,11 @@ pub fn profile_for(prop: &str, variant: u64) -> Profile {
             w[K::Diverge as usize] = 16;
             w[K::Resolve as usize] = 6;
             w[K::Snapshot as usize] = 4;
+            // staged work exported and replayed (record order of an export follows hash order)
+            w[K::RoundTrip as usize] = 3;
+            w[K::StageSave as usize] = 2;
+            w[K::StageRestore as usize] = 3;
+            w[K::ObjOp as usize] = 3;
         }
         _ => {}
     }
